@@ -189,9 +189,9 @@ TypeOK ==
     /\ held \in -1..(NC-1) /\ pc \in {"run", "panicked"}
 
 \* THE property: the monitor never flags anything
-PropertyHolds == abs.why = ""
+PropertyHolds == abs.why = "" /\ ~abs.stale
 \* the property except for the one clause recorded as a known finding (reference released before it is read)
-PropertyHoldsButStaleRead == abs.why \in {"", "content_overwritten_between_return_and_read"}
+PropertyHoldsButStaleRead == abs.why = ""
 
 \* algorithm-level facts about the code as it should be (not verdict-bearing)
 CountersConsistent ==
